@@ -917,7 +917,9 @@ impl Axecutor {
             stack_top,
             self.stack_top
         );
-        self.stack_top = stack_top;
+        // same convention as init_stack: RET compares RSP + 8 with this mark, so it has to lie one slot above the
+        // initial stack pointer (with the mark on the stack pointer itself, the first RET one call deep ended the run)
+        self.stack_top = stack_top + 8;
 
         Ok(stack_start)
     }
